@@ -651,7 +651,10 @@ func (r *run) fetchAudio(as *assetState, in l1In, nr int64) audioObs {
 		can = append(can, o.idx...)
 		term := fmt.Sprintf("KSeg %s %d %s %s %s %s %s %s tab_%s canon_%s %d %s %d %s", r.fx, nr, u(in.RefStart), u(in.RefEnd), u(as.D), u(as.R), u(as.F), u(as.A),
 			as.d.Name, as.d.Name, cls, u(o.ps.Tfdt), o.ps.Seq, zl(can))
-		id := r.add(term, in, true)
+		var id string
+		if in.NowMS == 0 {
+			id = r.add(term, in, true) // replayed input without the request parameters: recipe + createAudioSeg only
+		}
 		if in.NowMS != 0 {
 			// the same request against the model of the whole handler path (reference lookup included)
 			mode := 0
@@ -660,7 +663,7 @@ func (r *run) fetchAudio(as *assetState, in l1In, nr int64) audioObs {
 			}
 			rterm := fmt.Sprintf("KReq %s vrep_%s %d %d %s %s tab_%s canon_%s %d %s %d %d %s %d %s", r.fx, as.d.Name, as.D*1000/as.R, in.StartNr,
 				u(as.F), u(as.A), as.d.Name, as.d.Name, mode, u(in.SegID), in.NowMS, cls, u(o.ps.Tfdt), o.ps.Seq, zl(can))
-			r.add(rterm, in, true)
+			id = r.add(rterm, in, true)
 			c.Count("l1:request-model:" + in.Mode)
 		}
 		// attach the case id to the failures just recorded
